@@ -1156,6 +1156,48 @@ def index_unpacked_rows(modules, known, rep):
                 rep.other.append(f"row unpacked into {names} in {sc + '.' if sc else ''}{fn.name} read by position")
 
 
+# ---------------------------------------------------------------------------------------------- N28 boolean accumulation
+def expand_bool_accumulate(modules, known, rep):
+    """a new `x = x or <comparison>` on a local that only ever holds booleans (every other assignment is True / False / such a form)
+    is `if <comparison>: x = True`; `x = x and <comparison>` is `if not <comparison>: x = False` (the comparison is over plain names /
+    constants: evaluating it when x already decides the result changes nothing)."""
+    def quiet(e):
+        return isinstance(e, ast.Compare) and all(isinstance(x, (ast.Name, ast.Constant)) or (isinstance(x, ast.Attribute) and isinstance(x.value, ast.Name))
+                                                  for x in [e.left] + e.comparators) and \
+            all(isinstance(o, (ast.Eq, ast.NotEq, ast.Lt, ast.LtE, ast.Gt, ast.GtE, ast.Is, ast.IsNot)) for o in e.ops)
+    for rel, sc, fn in all_functions(modules):
+        kh = _known_hashes(known, rel, sc, fn)
+        if kh is None:
+            continue
+        for owner, fld, stmts in list(_blocks(fn)):
+            for i, st in enumerate(stmts):
+                if not (isinstance(st, ast.Assign) and len(st.targets) == 1 and isinstance(st.targets[0], ast.Name) and isinstance(st.value, ast.BoolOp)
+                        and len(st.value.values) == 2 and isinstance(st.value.values[0], ast.Name) and st.value.values[0].id == st.targets[0].id
+                        and quiet(st.value.values[1]) and _is_fresh(st, fn, kh)):
+                    continue
+                x = st.targets[0].id
+                others = [a for a in ast.walk(fn) if isinstance(a, ast.Assign) and any(isinstance(t, ast.Name) and t.id == x for t in a.targets) and a is not st]
+                n_stores = sum(1 for n in ast.walk(fn) if isinstance(n, ast.Name) and n.id == x and isinstance(n.ctx, (ast.Store, ast.Del)))
+                if n_stores != len(others) + 1 or x in _params(fn):
+                    continue
+
+                def boolish(a):
+                    v = a.value
+                    return (isinstance(v, ast.Constant) and isinstance(v.value, bool)) or \
+                        (isinstance(v, ast.BoolOp) and len(v.values) == 2 and isinstance(v.values[0], ast.Name) and v.values[0].id == x and quiet(v.values[1])) or quiet(v)
+                if not others or not all(len(a.targets) == 1 and boolish(a) for a in others):
+                    continue
+                c = st.value.values[1]
+                if isinstance(st.value.op, ast.Or):
+                    new = ast.If(c, [ast.Assign([ast.Name(x, ast.Store())], ast.Constant(True), lineno=st.lineno)], [])
+                else:
+                    new = ast.If(ast.UnaryOp(ast.Not(), c), [ast.Assign([ast.Name(x, ast.Store())], ast.Constant(False), lineno=st.lineno)], [])
+                ast.copy_location(new, st)
+                ast.fix_missing_locations(new)
+                stmts[i] = new
+                rep.other.append(f"`{x} = {x} {'or' if isinstance(st.value.op, ast.Or) else 'and'} ...` in {fn.name} read as a conditional assignment")
+
+
 # ---------------------------------------------------------------------------------------------- N24 augmented assignment
 def expand_augassign(modules, known, rep):
     """a new `x -= c` / `x += c` on a plain local with a numeric constant is `x = x - c` (no in-place form exists for numbers)"""
